@@ -205,4 +205,20 @@ def build(tier, seed):
                 and txt(TX.UPPER(b)) == s.upper() and txt(TX.MID(b, 1, n)) == s[:n])
     add('boolean-as-text[library form]', h_bool_consistent, lambda b, n: 0 <= n <= 5, [(True, 1), (False, 5)],
         'b: bool, n in 0..5: every text function sees the same text form of the boolean (the library\'s Text.cast), which is TRUE/FALSE up to letter case', 5)
+    # --- the text form of a value does not depend on which equal-looking value was converted before (1, TRUE, 1.0; 0, FALSE)
+    LOOK = [1, True, 1.0, 0, False, '1']
+    ALONE = {0: ('1', 1), 1: (None, 4), 2: ('1.0', 3), 3: ('0', 1), 4: (None, 5), 5: ('1', 1)}
+
+    def h_text_history(i: int, j: int, n: int) -> bool:
+        i, j = concretize(i, 0, len(LOOK) - 1), concretize(j, 0, len(LOOK) - 1)
+        x, y = LOOK[i], LOOK[j]
+        TX.LEN(x), TX.LEFT(x, 1), TX.UPPER(x), TX.CONCAT(x, '|')
+        s, ln = ALONE[j]
+        if s is None:
+            s = txt(T.Text(str(T.Boolean(y))))            # the library's own text form of a boolean (see K17)
+        return (num(TX.LEN(y)) == ln and txt(TX.LEFT(y, n)) == s[:n] and txt(TX.UPPER(y)) == s.upper() and txt(TX.CONCAT(y, '|')) == s + '|'
+                and txt(TX.MID(y, 1, n)) == s[:n])
+    add('text-form[history independence]', h_text_history, lambda i, j, n: 0 <= i < len(LOOK) and 0 <= j < len(LOOK) and 0 <= n <= 5, [(0, 1, 4), (1, 0, 1), (3, 4, 5), (2, 0, 3)],
+        f'all ordered pairs of {LOOK} (forked), n in 0..5: LEN / LEFT / UPPER / CONCAT / MID of the second value give its own text form whatever was converted just before', 10,
+        lambda i, j, n: f'text functions on {LOOK[i % 6]!r}, then on {LOOK[j % 6]!r} (n={n})')
     return obs
